@@ -71,22 +71,28 @@ def addEdges (sp : Spec) (raws : List (List Node)) (ls : List Layer) (ws : Optio
     | none => (addEdgesLoop sp (raws.zip ls) (List.replicate n none) mdl, .ok)
 
 def removeEdge (sp : Spec) (raw : List Node) (l : Layer) : Spec × Out :=
-  if (AL.get? sp.edges (canon raw, l)).isSome then ({ sp with edges := AL.erase sp.edges (canon raw, l) }, .ok)
+  if (AL.get? sp.edges (canon raw, l)).isSome then ({ sp with edges := del sp.edges (canon raw, l) }, .ok)
   else (sp, .rej)
 
-/-- the record `(e, l) ↦ (w, md)` loses node `n`: it moves to key `(e \ n, l)` (merging like an insertion)
-or disappears when nothing is left -/
-def shrinkEntry (sp : Spec) (n : Node) (r : Key × (Int × Meta)) : Spec :=
-  let e' := r.1.1.filter (· ≠ n)
-  let sp1 : Spec := { sp with edges := AL.erase sp.edges r.1 }
-  if e'.isEmpty then sp1 else (addEdge sp1 e' r.1.2 (some r.2.1) (some r.2.2)).1
+def dropNode (sp : Spec) (n : Node) : Spec := { sp with nodes := del sp.nodes n }
 
+def dropKey (sp : Spec) (k : Key) : Spec := { sp with edges := del sp.edges k }
+
+/-- the record with key `k = (e, l)` loses node `n`: it moves to key `(e \ n, l)` (merging like an insertion,
+with its weight and metadata) or disappears when no node is left -/
+def shrinkKey (sp : Spec) (n : Node) (k : Key) : Spec :=
+  match AL.get? sp.edges k with
+  | none => sp
+  | some (w, md) =>
+    if (k.1.filter (· ≠ n)).isEmpty then dropKey sp k
+    else (addEdge (dropKey sp k) (k.1.filter (· ≠ n)) k.2 (some w) (some md)).1
+
+/-- `keep = false`: every record containing `n` disappears; `keep = true`: every such record loses `n`;
+then the node itself (and its metadata) disappears -/
 def removeNode (sp : Spec) (n : Node) (keep : Bool) : Spec × Out :=
   if (AL.get? sp.nodes n).isSome then
-    let inc := sp.edges.filter (fun r => decide (n ∈ r.1.1))
-    let sp1 := if keep then inc.foldl (fun sp r => shrinkEntry sp n r) sp
-               else { sp with edges := sp.edges.filter (fun r => !decide (n ∈ r.1.1)) }
-    ({ sp1 with nodes := AL.erase sp1.nodes n }, .ok)
+    (dropNode (if keep then ((AL.keys sp.edges).filter (fun k => decide (n ∈ k.1))).foldl (fun sp k => shrinkKey sp n k) sp
+               else { sp with edges := sp.edges.filter (fun r => !decide (n ∈ r.1.1)) }) n, .ok)
   else (sp, .rej)
 
 def setWeight (sp : Spec) (raw : List Node) (l : Layer) (w : Int) : Spec × Out :=
@@ -103,7 +109,7 @@ def setAttrNode (sp : Spec) (n : Node) (k v : Nat) : Spec × Out :=
 def delAttrNode (sp : Spec) (n : Node) (k : Nat) : Spec × Out :=
   match AL.get? sp.nodes n with
   | none => (sp, .rej)
-  | some md => if (AL.get? md k).isSome then ({ sp with nodes := AL.set sp.nodes n (AL.erase md k) }, .ok) else (sp, .rej)
+  | some md => if (AL.get? md k).isSome then ({ sp with nodes := AL.set sp.nodes n (del md k) }, .ok) else (sp, .rej)
 
 def setAttrEdge (sp : Spec) (raw : List Node) (l : Layer) (k v : Nat) : Spec × Out :=
   match AL.get? sp.edges (canon raw, l) with
@@ -114,7 +120,7 @@ def delAttrEdge (sp : Spec) (raw : List Node) (l : Layer) (k : Nat) : Spec × Ou
   match AL.get? sp.edges (canon raw, l) with
   | none => (sp, .rej)
   | some (w, md) =>
-    if (AL.get? md k).isSome then ({ sp with edges := AL.set sp.edges (canon raw, l) (w, AL.erase md k) }, .ok)
+    if (AL.get? md k).isSome then ({ sp with edges := AL.set sp.edges (canon raw, l) (w, del md k) }, .ok)
     else (sp, .rej)
 
 def step (sp : Spec) : Op → Spec × Out
